@@ -8,11 +8,6 @@ from typing import TYPE_CHECKING, Any, Generic, Literal, Self, TypeVar
 import numpy as np
 
 from quansino.integrators.displacement import Verlet
-from quansino.mc.contexts import (
-    Context,
-    DisplacementContext,
-    HamiltonianDisplacementContext,
-)
 from quansino.moves.composite import CompositeMove
 from quansino.moves.core import BaseMove
 from quansino.operations.displacement import Ball
@@ -23,10 +18,14 @@ from quansino.utils.dynamics import maxwell_boltzmann_distribution
 if TYPE_CHECKING:
     from collections.abc import Callable
 
+    from quansino.mc.contexts import (
+        DisplacementContext,
+        HamiltonianDisplacementContext,
+    )
     from quansino.type_hints import IntegerArray
 
 OperationType = TypeVar("OperationType", bound=Operation)
-ContextType = TypeVar("ContextType", bound=DisplacementContext)
+ContextType = TypeVar("ContextType", bound="DisplacementContext")
 
 
 class DisplacementMove(
@@ -273,7 +272,7 @@ class DisplacementMove(
 
 
 IntegratorType = TypeVar("IntegratorType", bound=Integrator)
-HContextType = TypeVar("HContextType", bound=HamiltonianDisplacementContext)
+HContextType = TypeVar("HContextType", bound="HamiltonianDisplacementContext")
 
 
 class HamiltonianDisplacementMove(
@@ -328,6 +327,9 @@ class HamiltonianDisplacementMove(
         bool
             Whether the move was valid.
         """
+        # imported here: `quansino.mc` imports this module while it is itself being imported
+        from quansino.mc.contexts import Context
+
         atoms = context.atoms
         old_positions = atoms.get_positions()
         old_momenta = atoms.get_momenta()
